@@ -616,8 +616,9 @@ static void gen(plan_t *p, rng_t *r)
             if (rng_chance(r, 1, 2)) { int os = pick(r, 1); if (os == s && !rng_chance(r, 1, 3)) os = -1; plan_op(p, 0, "splice", 5, (long)s, idx, cnt, (long)os, (long)symb); }
             else { o = plan_op(p, 0, "splice_ptr", 5, (long)s, idx, cnt, 0L, (long)symb); if (!rng_chance(r, 1, 8)) { n = gen_bytes(r, gbuf, sizeof(gbuf), 0); op_str(o, gbuf, n); } }
         } else if (k < 58) {
-            o = plan_op(p, 0, "sprintf", 3, (long)s, (long)rng_below(r, 5), (long)(int)rng_u64(r));
-            n = rng_chance(r, 1, 6) ? (size_t)rng_range(r, 4000, 12000) : (size_t)rng_range(r, 0, 20);      /* one in six formats several kilobytes */
+            int pow2 = rng_chance(r, 1, 8);         /* one in eight: a result whose length is a power of two, or one or two off it (a scratch buffer of any such size, filled exactly) */
+            o = plan_op(p, 0, "sprintf", 3, (long)s, pow2 && rng_chance(r, 2, 3) ? 0L : (long)rng_below(r, 5), (long)(int)rng_u64(r));
+            n = pow2 ? (size_t)((1 << rng_range(r, 4, 13)) + rng_range(r, -2, 1)) : rng_chance(r, 1, 6) ? (size_t)rng_range(r, 4000, 12000) : (size_t)rng_range(r, 0, 20);      /* one in six formats several kilobytes */
             for (size_t j = 0; j < n; j++) gbuf[j] = (unsigned char)('a' + rng_below(r, 26));
             op_str(o, gbuf, n);
             glen[s] = n + 4;
